@@ -128,6 +128,7 @@ fn main() {
                 "handoff" => Flavor::Handoff,
                 "drain" => Flavor::Drain,
                 "zone" => Flavor::Zone,
+                "lower" => Flavor::LowerSearch,
                 _ => Flavor::Mixed,
             };
             let dense = args.iter().any(|a| a == "--dense");
@@ -139,7 +140,9 @@ fn main() {
                 let hseed = rng.next();
                 starts.push(em.nlines);
                 let mut g = Gen { rng: Rng(hseed), eng: &mut eng, em: &mut em, flavor, dense };
-                if g.start(max_trees) {
+                if flavor == Flavor::LowerSearch {
+                    g.lower_search(len);
+                } else if g.start(max_trees) {
                     g.history(len);
                 }
                 let _ = h;
